@@ -752,6 +752,16 @@ func (env *Env) evalCall(e *Expr) CV {
 		case Scalar:
 			return CV{V: Scalar{tb.Select(env.cur.BA, v.T)}, T: boolT}
 		}
+	case "asiface":
+		x := arg(0)
+		if iv, ok := x.V.(IfaceV); ok {
+			return CV{V: iv, T: x.T}
+		}
+		return CV{V: r.makeInterface(env.cur, x.V, x.T), T: specTypes["iface"]}
+	case "tag":
+		return CV{V: Scalar{arg(0).V.(IfaceV).Tag}, T: types.Typ[types.Uint64]}
+	case "data":
+		return CV{V: Scalar{arg(0).V.(IfaceV).Data}, T: types.Typ[types.UnsafePointer]}
 	case "bhframe":
 		// every byte object allocated at function entry, other than the listed ones, has its entry content
 		ent := r.rootEntry()
